@@ -117,7 +117,7 @@ ITEMS += [
      "class_methods": {"aggregate_bit_length_sets": "bls"}},
 ]
 PRIMITIVE = "pydsdl/_serializable/_primitive.py"
-ITEMS += [
+PRIMITIVE_ITEMS: typing.List[dict] = [
     {"name": "SignedIntegerType.inclusive_value_range", "source": PRIMITIVE, "cls": "SignedIntegerType", "fn": "inclusive_value_range", "kind": "method",
      "params": [("bit_length", "int")], "ret": "range", "paths": {"self.bit_length": ("bit_length", "int")}},
     {"name": "UnsignedIntegerType.inclusive_value_range", "source": PRIMITIVE, "cls": "UnsignedIntegerType", "fn": "inclusive_value_range", "kind": "method",
@@ -793,9 +793,14 @@ def translate_item(item: dict, repo: Path) -> typing.Tuple[typing.List[str], typ
         return stub, "%s %s: %s" % (item["source"], item["name"], ex)
 
 
-def check_constants(repo: Path) -> typing.List[str]:
+RULE_CONSTANT_NAMES = {"MAX_BIT_LENGTH", "BITS_IN_BYTE", "MAX_VERSION_NUMBER", "MIN_NUMBER_OF_VARIANTS", "MAX_SUBJECT_ID", "MAX_SERVICE_ID"}
+
+
+def check_constants(repo: Path, rules: bool = False) -> typing.List[str]:
     probs = []
     for src, cls, name, want in CONSTANTS:
+        if (name in RULE_CONSTANT_NAMES) != rules:
+            continue
         try:
             tree = ast.parse((repo / src).read_text())
             c = tree if cls is None else next(x for x in tree.body if isinstance(x, ast.ClassDef) and x.name == cls)
@@ -822,10 +827,22 @@ def translate_layout(repo: Path) -> typing.Tuple[str, typing.List[str]]:
     return "\n".join(out) + "\n", problems
 
 
+def translate_primitive(repo: Path) -> typing.Tuple[str, typing.List[str]]:
+    out = ["import PyLib", "/-! GENERATED by tools/py2lean.py (value ranges of pydsdl/_serializable/_primitive.py) -- do not edit. -/",
+           "set_option linter.unusedVariables false", ""]
+    problems: typing.List[str] = []
+    for item in PRIMITIVE_ITEMS:
+        lines, prob = translate_item(item, repo)
+        out += lines
+        if prob:
+            problems.append(prob)
+    return "\n".join(out) + "\n", problems
+
+
 def translate_rules(repo: Path) -> typing.Tuple[str, typing.List[str]]:
     out = ["import PyLib", "/-! GENERATED by tools/py2lean.py (rules group: constructor guards of pydsdl/_serializable) -- do not edit. -/",
            "set_option linter.unusedVariables false", ""]
-    problems: typing.List[str] = []
+    problems: typing.List[str] = check_constants(repo, rules=True)
     for item in RULE_ITEMS:
         lines, prob = translate_item(item, repo)
         out += lines
